@@ -1640,6 +1640,17 @@ class Sym:
         """canonical name of a local that is initialised and then mutated through &mut views:
         Vec::new() + pushes -> vec[push <values>]; otherwise mut(<init>)"""
         l, init = t[1], t[2]
+        busy = self.__dict__.setdefault("_mut_busy", set())
+        if l in busy:
+            return "self"          # a value pushed into the vector that mentions the vector itself (v.push(f(v.pop())))
+        busy.add(l)
+        try:
+            return self._mut_name(t)
+        finally:
+            busy.discard(l)
+
+    def _mut_name(self, t):
+        l, init = t[1], t[2]
         init_s = strip(init)
         if init_s[0] == "call" and short(init_s[1]) in ("Vec::<T>::new", "Vec::<T>::with_capacity"):
             pushed = []
